@@ -107,6 +107,13 @@ def parse_sections(text: str) -> SectionConfig:
 
             # Start new section
             section_name = header_match.group(1).strip()
+            # Results are keyed by view name: a second view with the same name would be
+            # merged into the first (members of either filter, some listed twice)
+            if section_name in [s.name for s in sections]:
+                raise SectionParseError(
+                    f"Duplicate section name: [{section_name}]",
+                    line_num, line
+                )
             current_section = Section(
                 name=section_name,
                 filter_expr="",
